@@ -248,6 +248,9 @@ func c16Run(f []string) string {
 	if res, ok := c16RunR4b(f); ok {
 		return res
 	}
+	if res, ok := c16RunR4c(f); ok {
+		return res
+	}
 	return c16RunR4(f)
 }
 
@@ -806,6 +809,7 @@ func c16Gen(r *Rand, tier string) []string {
 	}
 	out = append(out, c16GenR4(r, tier)...)
 	out = append(out, c16GenR4b(r, tier)...)
+	out = append(out, c16GenR4c(r, tier)...)
 	return out
 }
 
@@ -902,6 +906,7 @@ func c16Stats(cases []string) map[string]int {
 	}
 	c16StatsR4(cases, st)
 	c16StatsR4b(cases, st)
+	c16StatsR4c(cases, st)
 	return st
 }
 
